@@ -438,6 +438,19 @@ func (g *Gen) strConst(s string) Val {
 	return Val{S: name, Sort: "Str", GT: tString}
 }
 
+// strLitText returns the text of a string literal constant previously interned by strConst.
+func (g *Gen) strLitText(name string) (string, bool) {
+	if name == "gstr.empty" {
+		return "", true
+	}
+	for txt, n := range g.strlits {
+		if n == name {
+			return txt, true
+		}
+	}
+	return "", false
+}
+
 func truncate(s string, n int) string {
 	if len(s) > n {
 		return s[:n] + "..."
